@@ -34,6 +34,7 @@ type Contract struct {
 	Serves    []string
 	Requires  []Clause
 	Assumes   []Clause
+	Defines   []Clause
 	Ensures   []Clause
 	Modifies  []*Expr // nil slice + ModAny => anything
 	ModAny    bool    // no modifies clause given
@@ -205,6 +206,15 @@ func (ss *SpecSet) readSpecFile(path, pkg string) error {
 			if cur != nil {
 				cur.Touches = strings.Fields(rest)
 			}
+		case "defines":
+			if cur == nil {
+				return perr(fmt.Errorf("clause outside contract"))
+			}
+			cl, err := parseClause(rest, where)
+			if err != nil {
+				return perr(err)
+			}
+			cur.Defines = append(cur.Defines, cl)
 		case "assumes":
 			// an explicit, listed assumption about the function's inputs that is
 			// NOT checked at call sites (e.g. "the API caller passes non-nil options")
@@ -693,7 +703,16 @@ func (p *parser) expr() *Expr {
 			p.l.next()
 			// type: tokens up to ',' or '::'
 			ty := ""
-			for p.l.tok != "," && p.l.tok != "::" && p.l.kind != 0 {
+			depth := 0
+			for (depth > 0 || p.l.tok != ",") && p.l.tok != "::" && p.l.kind != 0 {
+				if p.l.tok == "(" {
+					depth++
+				} else if p.l.tok == ")" {
+					depth--
+				}
+				if ty != "" && isWordChar(ty[len(ty)-1]) && isWordChar(p.l.tok[0]) {
+					ty += " "
+				}
 				ty += p.l.tok
 				p.l.next()
 			}
